@@ -201,3 +201,38 @@ void harness_parse_port(void)
 	if (port == 65535) VP_WITNESS("largest port");
 #endif
 }
+
+/* port bounds of the textual form, cheap enough for every run: a fixed address, a fixed digit prefix and
+ * VP_NSYM solver-chosen trailing digits (e.g. prefix "655" + 2 digits = ports 65500..65599): accepted iff the
+ * port is in 1..65535, with exactly that port */
+#ifndef VP_PORT_PREFIX
+#define VP_PORT_PREFIX "655"
+#endif
+#ifndef VP_NSYM
+#define VP_NSYM 2
+#endif
+void harness_port_bounds(void)
+{
+	char text[32]; struct sockaddr_storage back; int outlen = sizeof(back), pr, n = 0, k; unsigned long port = 0;
+#ifdef VP_RT_V6
+	const char *pre = "[::1]:"; const int v6 = 1;
+#else
+	const char *pre = "10.2.3.4:"; const int v6 = 0;
+#endif
+	const char *pp = VP_PORT_PREFIX;
+	for (k = 0; pre[k]; k++) text[n++] = pre[k];
+	for (k = 0; pp[k]; k++) { text[n++] = pp[k]; port = port * 10 + (unsigned long)(pp[k] - '0'); }
+	for (k = 0; k < VP_NSYM; k++) { unsigned d = (unsigned)vp_range(0, 9); text[n++] = (char)('0' + d); port = port * 10 + d; }
+	text[n] = 0;
+	memset(&back, 0, sizeof(back));
+	pr = evutil_parse_sockaddr_port(text, (struct sockaddr *)&back, &outlen);
+	if (port >= 1 && port <= 65535) {
+		VP_ASSERT(pr == 0, "C40: evutil_parse_sockaddr_port rejects an address with a valid non-zero port");
+		if (v6) VP_ASSERT(((struct sockaddr_in6 *)&back)->sin6_port == htons((unsigned short)port), "C40: parsed IPv6 port differs from the text");
+		else VP_ASSERT(((struct sockaddr_in *)&back)->sin_port == htons((unsigned short)port), "C40: parsed IPv4 port differs from the text");
+		VP_WITNESS("accepted port");
+	} else {
+		VP_ASSERT(pr == -1, "C40: evutil_parse_sockaddr_port accepts a port outside 1..65535");
+		VP_WITNESS("rejected port");
+	}
+}
